@@ -190,6 +190,22 @@ fn history() {
             check_native("instantiate2_succeeds", false, || format!("{:#}", e));
         }
     }
+    // salts outside the length instantiate2_address accepts (1..=64 bytes) are rejected without effect —
+    // never served at some other, history-dependent address (seed C11d); the 64-byte boundary is accepted
+    let snap = snapshot(&app);
+    for (name, salt) in [("empty", vec![]), ("65_bytes", vec![7u8; 65])] {
+        let r = app.instantiate2_contract(ids[1], user.clone(), &Script::new(), &[], format!("bad-{}", name), None, Binary::from(salt));
+        check_native("salt_of_invalid_length_rejected", r.is_err(), || format!("{} salt: {:?}", name, r));
+    }
+    check_unchanged("rejected_salts_leave_state_unchanged", &app, &snap);
+    match app.instantiate2_contract(ids[1], user.clone(), &Script::new(), &[], "s64", None, Binary::from(vec![7u8; 64])) {
+        Ok(a64) => {
+            check_native("new_address_is_fresh", a64 != a1 && !addrs.contains(&a64), || format!("{}", a64));
+        }
+        Err(e) => {
+            check_native("salt_of_64_bytes_accepted", false, || format!("{:#}", e));
+        }
+    }
     // the same code (checksum), creator and salt on a fresh chain with a different history
     let mut app2 = App::default();
     if let Some(ids2) = store_all(&mut app2, &creator, explicit, dup_of) {
